@@ -82,7 +82,15 @@ fn absorb(ctx: &Ctx, m: &mut Model, step: usize, out: Vec<(u32, SupportedMessage
 }
 
 fn run(ctx: &Ctx, ops: &Vec<Op>) -> PResult {
-    let mut fx = SubFix::new();
+    run_on(ctx, ops, SubFix::new())
+}
+
+/// the same histories on a server of their own: subscription ids 1, 2, 3 meet sequence numbers 1, 2, 3
+fn run_fresh(ctx: &Ctx, ops: &Vec<Op>) -> PResult {
+    run_on(ctx, ops, SubFix::fresh())
+}
+
+fn run_on(ctx: &Ctx, ops: &Vec<Op>, mut fx: SubFix) -> PResult {
     let mut m = Model { subs: Vec::new(), expect_results: BTreeMap::new(), eviction_possible: false, acked_other_since: false, nontrivial: false };
     let mut counter = (0..crate::subs::N_VARS).map(|v| fx.read(v)).max().unwrap_or(0).wrapping_add(1);
 
@@ -255,12 +263,12 @@ fn run(ctx: &Ctx, ops: &Vec<Op>) -> PResult {
 pub fn def() -> PropDef {
     PropDef {
         id: "C40",
-        rule: "histories of up to 47 operations on one session with up to 3 subscriptions (one item each): produce a data notification (at most two unacknowledged per subscription), republish a sent / acknowledged / never-sent sequence number, publish requests carrying up to three acknowledgements (valid, already acknowledged, the same pair twice in one request, unknown sequence number, unknown subscription), delete a subscription, idle ticks; model: sent-and-unacknowledged (subscription, sequence number) -> original message; oracle: republish returns a message equal to the original while the pair is in the set, BadMessageNotAvailable after a Good acknowledgement or for unknown numbers, acknowledgement results are Good / BadSequenceNumberUnknown / BadSubscriptionIdInvalid as the model says and leave the other members republishable; non-trivial = a republish of an unacknowledged notification after an acknowledgement of a different one; distinct = distinct history",
+        rule: "histories of up to 47 operations (on the worker's server, and on a fresh server each so that subscription ids are as small as sequence numbers) on one session with up to 3 subscriptions (one item each): produce a data notification (at most two unacknowledged per subscription), republish a sent / acknowledged / never-sent sequence number, publish requests carrying up to three acknowledgements (valid, already acknowledged, the same pair twice in one request, unknown sequence number, unknown subscription), delete a subscription, idle ticks; model: sent-and-unacknowledged (subscription, sequence number) -> original message; oracle: republish returns a message equal to the original while the pair is in the set, BadMessageNotAvailable after a Good acknowledgement or for unknown numbers, acknowledgement results are Good / BadSequenceNumberUnknown / BadSubscriptionIdInvalid as the model says and leave the other members republishable; non-trivial = a republish of an unacknowledged notification after an acknowledgement of a different one; distinct = distinct history",
         assumptions: &[
             "eviction is allowed by the property: availability of an unacknowledged notification is asserted only while the retention queue (which also holds keep-alives) never reached its capacity of 4 x subscriptions during the history",
             "keep-alive messages are not notifications and are not modelled",
         ],
         abort_possible: false,
-        parts: |tier| vec![part("retention_history", tier.pick(1200, 30000), history(), run)],
+        parts: |tier| vec![part("retention_history", tier.pick(1200, 30000), history(), run), part("retention_history_on_a_fresh_server", tier.pick(150, 4000), history(), run_fresh)],
     }
 }
